@@ -255,7 +255,7 @@ func (r *propRun) exec() int {
 	// VC generation and solving of the units run concurrently (each unit has its own
 	// context); classification, replay and reporting below stay sequential and ordered
 	mkOpt := func(u Unit) govc.Options {
-		opt := govc.Options{Property: def.ID, Canary: true, ServiceLoops: map[string]bool{}}
+		opt := govc.Options{Property: def.ID, Canary: true, ServiceLoops: map[string]bool{}, LenientNames: !r.update}
 		for _, l := range def.ServiceLoops {
 			opt.ServiceLoops[l] = true
 		}
